@@ -571,6 +571,11 @@ impl Envelope {
     /// assert_eq!(bob.assertions().len(), 2);
     /// ```
     pub fn replace_subject(&self, subject: Self) -> Self {
-        self.assertions().into_iter().fold(subject, |e, a| e.add_assertion_envelope(a).unwrap())
+        let assertions = self.assertions();
+        if assertions.is_empty() {
+            subject
+        } else {
+            Self::new_with_unchecked_assertions(subject, assertions)
+        }
     }
 }
